@@ -6,6 +6,8 @@ use ipc_channel::ipc::{self, IpcSender};
 use serde_json::json;
 use std::io::BufRead;
 
+static ERR_ITEMS: std::sync::atomic::AtomicU64 = std::sync::atomic::AtomicU64::new(0);
+
 pub fn run() {
     let stdin = std::io::stdin();
     for line in stdin.lock().lines() {
@@ -102,7 +104,10 @@ pub fn run() {
                                 }
                                 match stream.next().await {
                                     Some(Ok(m)) => items.push(m),
-                                    Some(Err(_)) => bad += 1,
+                                    Some(Err(_)) => {
+                                        bad += 1;
+                                        ERR_ITEMS.fetch_add(1, std::sync::atomic::Ordering::SeqCst);
+                                    },
                                     None => {
                                         ended = true;
                                         break;
@@ -121,7 +126,14 @@ pub fn run() {
         for (i, p) in plan.iter().enumerate() {
             for q in 0..p.1 {
                 if poison == Some((i, q)) {
+                    // the messages that follow are only sent once the consumer has been handed the error item: whatever the
+                    // stream does on an undecodable item must not cost it the traffic that arrives afterwards
+                    let before = ERR_ITEMS.load(std::sync::atomic::Ordering::SeqCst);
                     let _ = txs[i].as_ref().unwrap().clone().to_opaque().to::<u8>().send(7);
+                    let t0 = std::time::Instant::now();
+                    while ERR_ITEMS.load(std::sync::atomic::Ordering::SeqCst) == before && t0.elapsed().as_millis() < 2000 {
+                        std::thread::sleep(std::time::Duration::from_micros(200));
+                    }
                 }
                 let _ = txs[i].as_ref().unwrap().send((i as u32, p.0 + q));
             }
